@@ -493,13 +493,19 @@ namespace hs
                 p.add("shrink", {obj()});
                 break;
             case 8:
+                if (is_pool && r.chance(1, 4))
+                    p.add("drain", {obj(), (long long)r.below(2)});
                 p.add("mv", {obj(), (long long)r.below(3)});
                 break;
             case 9:
+                if (is_pool && r.chance(1, 3))
+                    p.add("drain", {(long long)r.below(2), (long long)r.below(2)});
                 p.add("mva", {(long long)r.below(2)});
                 have2 = false;
                 break;
             case 10:
+                if (is_pool && r.chance(1, 3))
+                    p.add("drain", {(long long)r.below(2), (long long)r.below(2)});
                 p.add("swp", {});
                 break;
             case 11:
